@@ -228,6 +228,11 @@ Pre(cfg, c) ==
           { Scn("pre", c, << Dev(c, q, "fashare comm", 0, [m |-> "Mirror", inst |-> 0]), Dev(c, q, "fashare ver", 0, [m |-> "Mirror", inst |-> 0]),
                             Dev(c, q, "fashare di_bi", 0, [m |-> "Mirror", inst |-> 0]) >>,
                 "detect", {q}, "mirrored aShare commitments and openings") : q \in Others })
+  \* a Beaver opening bit that the corrupted party flips towards everybody AND uses itself (tap: the lie is consistent
+  \* with its own later computation; its MAC stays the one of the true bit)
+  \cup (IF a = 0 THEN {} ELSE
+          { Scn("pre", c, << [from |-> c, tap |-> t, idx |-> j] >>, "victims", Others, "consistent Beaver lie") :
+              t \in {"beaver_d", "beaver_e"}, j \in {0, la - 1} })
   \* the same alteration at TWO positions of one checked vector (aggregated checks must not let them cancel)
   \cup UNION { Two("fabitn", MPath("Flip", << 0, 0 >>), MPath("Flip", << 3 * RHO - 1, 0 >>), "two aBit test bits")
                \cup Two("fabitn", MBit(<< 0, 1 >>, 5), MBit(<< 3 * RHO - 1, 1 >>, 5), "two aBit test MACs")
